@@ -1,10 +1,78 @@
-/- driver handler for component Life: requests whose first token belongs to it -/
+/- driver handler for component Life (C17): requests whose first token is `life`
+
+   life <max_steps|_> <timeout|_> <auto_build_trunk 0|1> <is_build_models 0|1> ; <op> ; <op> …
+     op =  S <clk> <next 0|1> <openAfter 0|1> <mclk>          step()
+        |  F <mclk>                                            finish()
+        |  B <clk> <next> <openAfter> <mclk> , <clk> … , …     build()  (one group per step() of the loop)
+        |  A <id> | L <id>                                     argument / logic setter
+        |  T | N | M | K                                       build_trunk() / branch() / rule-set mutation / rules.lock()
+   answer: one group per op, joined by " ; ":
+     <out> <flag word> <len(history)> <valid> <invalid> <tree 0|1> <rules.locked 0|1> <arg|_> <logic|_> <stats 0|1> <models 0|1>
+-/
 import Ptx.Wire
+import Ptx.Tab.Lifecycle
 namespace Ptx.Drv.Life
+open Ptx.Tab.Life
+
+def optInt (t : String) : Option (Option Int) :=
+  if t == "_" then some none else t.toInt?.map some
+
+def bit (t : String) : Option Bool :=
+  if t == "1" then some true else if t == "0" then some false else none
+
+def parseStepIn : List String → Option StepIn
+  | [c, n, o, m] => do
+    let n ← bit n
+    some ⟨← c.toNat?, fun _ => n, ← bit o, ← m.toNat?⟩
+  | _ => none
+
+def parseOp : List String → Option Op
+  | "S" :: r => (parseStepIn r).map .step
+  | ["F", m] => m.toNat?.map .finish
+  | "B" :: r =>
+    if r.isEmpty then some (.build []) else
+    ((Wire.splitAt "," r).mapM parseStepIn).map .build
+  | ["A", a] => a.toNat?.map .setArgument
+  | ["L", l] => l.toNat?.map .setLogic
+  | ["T"] => some .buildTrunk
+  | ["N"] => some .addBranch
+  | ["M"] => some .rulesMutate
+  | ["K"] => some .rulesLock
+  | _ => none
+
+def showOut : Out → String
+  | .entry => "entry" | .none => "none" | .self => "self"
+  | .raised .timeout => "raise:ProofTimeoutError"
+  | .raised .illegalState => "raise:IllegalStateError"
+  | .exhausted => "exhausted"
+
+def showOB : Option Bool → String
+  | none => "_" | some true => "T" | some false => "F"
+def showON : Option Nat → String
+  | none => "_" | some n => toString n
+def b01 (b : Bool) : String := if b then "1" else "0"
+
+def showState (o : Out) (s : State) : String :=
+  " ".intercalate [showOut o, toString s.word, toString s.histLen, showOB s.valid, showOB s.invalid,
+    b01 s.treeBuilt, b01 s.rulesLocked, showON s.arg, showON s.logic, b01 s.statsBuilt, b01 s.modelsBuilt]
+
+def runShow (s : State) : List Op → List String
+  | [] => []
+  | op :: ops => let r := exec s op; showState r.2 r.1 :: runShow r.1 ops
 
 /-- `none` = not my request -/
 def handle (ts : List String) : Option String :=
   match ts with
+  | "life" :: r =>
+    match Wire.splitAt ";" r with
+    | [ms, to, ab, bm] :: ops =>
+      some <| match (do
+          let o : Opts := ⟨← optInt ms, ← optInt to, ← bit ab, ← bit bm⟩
+          let ops ← ops.mapM parseOp
+          some (" ; ".intercalate (runShow (init o) ops))) with
+        | some s => s
+        | none => "err:wire"
+    | _ => some "err:wire"
   | _ => none
 
 end Ptx.Drv.Life
